@@ -497,8 +497,10 @@ Section Analytic.
 
   Lemma log10R_div (a b : R) : 0 < a -> 0 < b -> log10R (b / a) = log10R b - log10R a.
   Proof.
-    intros Ha Hb. unfold log10R, Rdiv at 1. rewrite ln_mult by (try apply Rinv_0_lt_compat; lra).
-    rewrite ln_Rinv by exact Ha. field. pose proof ln10_pos; lra.
+    intros Ha Hb. unfold log10R.
+    assert (E : ln (b / a) = ln b - ln a).
+    { unfold Rdiv. rewrite ln_mult by (try apply Rinv_0_lt_compat; lra). rewrite ln_Rinv by exact Ha. ring. }
+    rewrite E. field. pose proof ln10_pos; lra.
   Qed.
 
   Lemma loguniform_onto (lo hi q : R) : 0 < lo -> lo < hi -> 0 <= q <= 1 ->
